@@ -102,14 +102,21 @@ def run_equality(R, variant):
     saved = T.np
     T.np = P.NpShim()
     try:
-        def mk(tag, shapes):
-            return {"a": P.fresh(ctx, tag + "a", shapes[0], np.int32), "b": [P.fresh(ctx, tag + "b", shapes[1], np.int8),
-                                                                                 NT(P.fresh(ctx, tag + "p", shapes[2], np.float32), P.fresh(ctx, tag + "q", shapes[3], np.bool_))]}
-        shapes1 = {"same": [(2,), (), (1, 2), (2,)], "scalar": [(), (), (), ()], "mismatch": [(2,), (), (1, 2), (2,)]}[variant]
+        def mk(tag, shapes, dts=(np.int32, np.int8, np.float32, np.bool_)):
+            return {"a": P.fresh(ctx, tag + "a", shapes[0], dts[0]), "b": [P.fresh(ctx, tag + "b", shapes[1], dts[1]),
+                                                                             NT(P.fresh(ctx, tag + "p", shapes[2], dts[2]), P.fresh(ctx, tag + "q", shapes[3], dts[3]))]}
+        shapes1 = {"same": [(2,), (), (1, 2), (2,)], "scalar": [(), (), (), ()], "mismatch": [(2,), (), (1, 2), (2,)],
+                   "mixed-dtypes": [(2,), (), (1, 2), (2,)], "mixed-dtypes-swapped": [(2,), (), (1, 2), (2,)]}[variant]
         shapes2 = list(shapes1)
         if variant == "mismatch":
             shapes2[2] = (2, 1)
         t1, t2 = mk("x", shapes1), mk("y", shapes2)
+        if variant.startswith("mixed-dtypes"):
+            # same structure and shapes, DIFFERENT leaf dtypes: numpy equality promotes (int 1 == float 1.0, int 1 != float 1.5,
+            # True == 1); a helper that casts one side to the other's dtype loses exactly these distinctions and becomes asymmetric
+            t2 = mk("y", shapes2, dts=(np.float32, np.int32, np.int32, np.int8))
+            if variant.endswith("swapped"):
+                t1, t2 = t2, t1
         R.bound(structure="dict/list/namedtuple nest", leaf_shapes=[shapes1, shapes2], leaves="symbolic int32/int8/float32/bool")
         l1, l2 = tree_lib.flatten(t1), tree_lib.flatten(t2)
         R.nvars += sum(a.size for a in l1 + l2)
@@ -120,7 +127,8 @@ def run_equality(R, variant):
                 shape_ok = False
                 continue
             for x, y in zip(a.sv.obj().reshape(-1), b.sv.obj().reshape(-1)):
-                eqs.append(J.to_z3(J.s_cmp("eq", x, y, a.dtype), np.bool_))
+                e = P.num_eq(x, a.dtype, y, b.dtype)
+                eqs.append(e if isinstance(e, z3.ExprRef) else z3.BoolVal(bool(e)))
         alleq = z3.And(eqs) if shape_ok else z3.BoolVal(False)   # numpy semantics: NaN != NaN, -0.0 == 0.0
 
         def conc(model, t):
@@ -192,5 +200,5 @@ def run_equality(R, variant):
 
 def jobs(tier, seed):
     js = [(f"tree_utils/B={B}", "checks.C19", "run_tree_utils", {"B": B}) for B in ([1, 2, 3] if tier == "quick" else [1, 2, 3, 4, 5])]
-    js += [(f"equality/{v}", "checks.C19", "run_equality", {"variant": v}) for v in ("same", "scalar", "mismatch")]
+    js += [(f"equality/{v}", "checks.C19", "run_equality", {"variant": v}) for v in ("same", "scalar", "mismatch", "mixed-dtypes", "mixed-dtypes-swapped")]
     return js
